@@ -582,6 +582,10 @@ def canon_expr(node: ast.AST, env: Env) -> Term:
                     r = mul(r, a)
                 return r
             return atom(('pow', a, b))
+        if isinstance(node.op, (ast.BitAnd, ast.BitOr)):
+            # element-wise and/or of boolean arrays: the same value as np.logical_and / np.logical_or
+            r = mk_call('np.logical_and' if isinstance(node.op, ast.BitAnd) else 'np.logical_or', (a, b), ())
+            return r if is_poly(r) else atom(r)
         raise CanonError(f"binary op {type(node.op).__name__}")
     if isinstance(node, ast.Compare):
         return atom(canon_cond(node, env))
